@@ -27,7 +27,7 @@ RULE = ("Histories as generated operation lists over a pool of shared objects (2
         "MeanFieldSystem (two systems), ParameterizedSystem, two Baths, TempoParameters, GibbsParameters, a Control, "
         "PT-TEMPO process tensors - used by a generated sequence of 2-9 calls (PtTebd, get_nn_full_liouvillians, "
         "MeanFieldTempo, compute_dynamics_with_field, Tempo, compute_dynamics, state_gradient, Gibbs); after every call the "
-        "publicly readable state of every pooled object is bit-identical to before, and the result equals the same call on a "
+        "publicly readable state of every pooled object is bit-identical to before, list arguments are unchanged (same elements), and the result equals the same call on a "
         "freshly constructed equal pool. Non-trivial: the history re-uses an "
         "object after a computation or after an attribute change; distinct = distinct canonical JSON.")
 TECHNIQUE = "model-based testing of histories: Hypothesis-generated operation sequences on shared objects against a model of 'freshly constructed equal objects', plus array-layout metamorphic relation and bitwise caller-array invariant"
@@ -472,6 +472,18 @@ class _Pool:
         self.control.add_single(1, operators.left_super(sig("x")), post=False)
         self.control.add_single(0.15, operators.left_right_super(sig("z"), sig("z")), post=True)
         self._pts = {}
+        self.lists_changed = []
+
+    def _lists(self, **lists):
+        """registers caller-owned list arguments; `_check_lists` reports those a call has modified"""
+        self._held = {k: (v, list(v)) for k, v in lists.items()}
+        return lists
+
+    def _check_lists(self):
+        for k, (v, before) in getattr(self, "_held", {}).items():
+            if len(v) != len(before) or any(a is not b for a, b in zip(v, before)):
+                self.lists_changed.append(k)
+        self._held = {}
 
     def pt(self, dt):
         import oqupy
@@ -486,17 +498,21 @@ class _Pool:
         n = len(self.rhos)
         if k == "tebd":
             pts = [self.pt(dt) if (op["with_pt"] and i == 0) else None for i in range(n)]
-            r = oqupy.PtTebd(self.mps, self.chain, pts, self.tebd_par[(op["order"], dt)],
-                             dynamics_sites=list(range(n))).compute(N, **kw)
+            L = self._lists(process_tensors=pts, dynamics_sites=list(range(n)))
+            r = oqupy.PtTebd(self.mps, self.chain, L["process_tensors"], self.tebd_par[(op["order"], dt)],
+                             dynamics_sites=L["dynamics_sites"]).compute(N, **kw)
             return np.concatenate([np.array(r["dynamics"][i].states).reshape(-1) for i in range(n)] + [np.asarray(r["norm"]).reshape(-1)])
         if k == "chain-read":
             return np.concatenate([np.asarray(x).reshape(-1) for x in self.chain.get_nn_full_liouvillians()])
         if k == "mf-tempo":
-            d = oqupy.MeanFieldTempo(self.mfs, [self.bath, self.bath2], self.par[dt], self.rhos[:2], 0.3 + 0.1j).compute((N + 0.5) * dt, **kw)
+            L = self._lists(bath_list=[self.bath, self.bath2], initial_state_list=self.rhos[:2])
+            d = oqupy.MeanFieldTempo(self.mfs, L["bath_list"], self.par[dt], L["initial_state_list"], 0.3 + 0.1j).compute((N + 0.5) * dt, **kw)
             return np.concatenate([np.array(d.system_dynamics[i].states).reshape(-1) for i in range(2)] + [np.asarray(d.fields).reshape(-1)])
         if k == "mf-dynamics":
-            d = oqupy.compute_dynamics_with_field(self.mfs, 0.3 + 0.1j, [self.pt(dt), self.pt(dt)], num_steps=N,
-                                                  initial_state_list=self.rhos[:2], control_list=[self.control, self.control], **kw)
+            L = self._lists(process_tensor_list=[self.pt(dt), self.pt(dt)], initial_state_list=self.rhos[:2],
+                            control_list=[self.control, self.control])
+            d = oqupy.compute_dynamics_with_field(self.mfs, 0.3 + 0.1j, L["process_tensor_list"], num_steps=N,
+                                                  initial_state_list=L["initial_state_list"], control_list=L["control_list"], **kw)
             return np.concatenate([np.array(d.system_dynamics[i].states).reshape(-1) for i in range(2)] + [np.asarray(d.fields).reshape(-1)])
         if k == "td-tempo":
             return np.array(oqupy.Tempo(self.tdsys, self.bath, self.par[dt], self.rhos[0], 0.0).compute((N + 0.5) * dt, **kw).states).reshape(-1)
@@ -504,11 +520,13 @@ class _Pool:
             return np.array(oqupy.compute_dynamics(self.tdsys, self.rhos[0], process_tensor=self.pt(dt), control=self.control,
                                                    num_steps=N, **kw).states).reshape(-1)
         if k == "sys-dynamics":
-            return np.array(oqupy.compute_dynamics(self.system, self.rhos[0], process_tensor=[self.pt(dt), self.pt(dt)],
+            L = self._lists(process_tensor=[self.pt(dt), self.pt(dt)])
+            return np.array(oqupy.compute_dynamics(self.system, self.rhos[0], process_tensor=L["process_tensor"],
                                                    control=self.control, num_steps=N, **kw).states).reshape(-1)
         if k == "gradient":
             M = len(self.pt(dt))
-            r = oqupy.state_gradient(self.psys, self.rhos[0], self.rhos[1].T.copy(), [self.pt(dt)],
+            L = self._lists(process_tensors=[self.pt(dt)])
+            r = oqupy.state_gradient(self.psys, self.rhos[0], self.rhos[1].T.copy(), L["process_tensors"],
                                      np.linspace(0.1, 0.8, 2 * M).reshape(2 * M, 1), **kw)
             return np.asarray(r["gradient"]).reshape(-1)
         if k == "gibbs":
@@ -557,6 +575,10 @@ def run_shared(case):
         k = op["op"]
         before = pool.public_state()
         got = pool.run(op)
+        pool._check_lists()
+        if pool.lists_changed:
+            out.fail(f"caller-list-modified:{k}:{pool.lists_changed[0]}", f"op {i} ({k}): list argument(s) {pool.lists_changed} changed")
+            return out
         after = pool.public_state()
         out.label("shared:" + k)
         changed = sorted(x for x in before if x in after and before[x] != after[x])
